@@ -13,9 +13,82 @@ def factory():
     return [C02Mon()]
 
 
+def _mk(side, spec):
+    from pams.order import LIMIT_ORDER, MARKET_ORDER, Order
+    kind, price, placed, oid = spec
+    return Order(0, 0, side, MARKET_ORDER if kind == 0 else LIMIT_ORDER, 1, placed_at=placed, price=price, order_id=oid)
+
+
+def domain():
+    out = []
+    for oid in range(4):
+        for placed in range(3):
+            out.append((0, None, placed, oid))
+            for price in (99.0, 100.0, 101.0):
+                out.append((1, price, placed, oid))
+    return out
+
+
+def consistent(a, b):
+    """ids are assigned in acceptance order: distinct ids, and an earlier time never has a larger id"""
+    if a[3] == b[3]:
+        return False
+    return (a[2] <= b[2]) if a[3] < b[3] else (a[2] >= b[2])
+
+
+def comparator_fn(case, wit):
+    """all pairs and triples (first element fixed by the case) of accepted same-side orders"""
+    from ..common import Violation
+    from ..explore_m import K
+    side, i = case
+    dom = domain()
+    a_s = dom[i]
+    a = _mk(side, a_s)
+    if not (not (a < a) and not (a > a) and a == a and a <= a and a >= a and not (a != a)):
+        raise Violation("C02.comparator", "comparison of an order with itself is not reflexive-equal", "%r" % (a_s,))
+    n = 0
+    for j in range(len(dom)):
+        if j == i or not consistent(a_s, dom[j]):
+            continue
+        b = _mk(side, dom[j])
+        ka, kb = K(a), K(b)
+        ok = ((a < b) == (ka < kb) and (a > b) == (kb < ka) and (a < b) != (b < a) and not (a == b) and (a != b)
+              and (a <= b) == (ka < kb) and (a >= b) == (kb < ka))
+        if not ok:
+            raise Violation("C02.comparator", "the comparison operators on accepted orders of one side disagree with price-time priority",
+                            "side %s: %r vs %r" % ("buy" if side else "sell", a_s, dom[j]))
+        n += 1
+        wit.inc("domain_pairs")
+        for k in range(j + 1, len(dom)):
+            if k == i or not consistent(a_s, dom[k]) or not consistent(dom[j], dom[k]):
+                continue
+            c = _mk(side, dom[k])
+            if (a < b and b < c and not a < c) or (c < b and b < a and not c < a) or (b < a and a < c and not b < c):
+                raise Violation("C02.transitivity", "order comparison is not transitive", "%r %r %r" % (a_s, dom[j], dom[k]))
+            wit.inc("domain_triples")
+    return (side, a_s[0], a_s[1])
+
+
 def run(tier, seed):
-    return run_generic("C02", tier, seed, factory, WIT, RULE)
+    res = run_generic("C02", tier, seed, factory, WIT, RULE)
+    from ..enum_f import run_grid
+    ev0, dn0 = res.coverage["evaluations"], res.coverage["distinct_nontrivial"]
+    run_grid(res, "comparator_domain", [(s, i) for s in (True, False) for i in range(len(domain()))], comparator_fn, seed)
+    res.coverage["evaluations"] = ev0 + res.coverage["witness_classes"].get("domain_pairs", 0) + res.coverage["witness_classes"].get("domain_triples", 0)
+    res.coverage["distinct_nontrivial"] = dn0
+    res.require_witness(["domain_pairs", "domain_triples"])
+    return res
 
 
 def replay(payload):
+    if payload.get("engine") == "F" and payload.get("grid") != "deep_one_sided_books":
+        from ..common import Violation, Counter
+        try:
+            comparator_fn(tuple(payload["case"]), Counter())
+        except Violation as v:
+            print("  ==> VIOLATION %s: %s" % (v.monitor, v.msg))
+            print("VIOLATION property=C02 replay=(this file)")
+            return 1
+        print("replay: no violation on this tree")
+        return 0
     return replay_generic(payload, factory)
